@@ -221,7 +221,9 @@ func Corpus() []*Scenario {
 	// (seeded C01-6: `for bp.buffer.readyToFlush()` dropped it)
 	out = append(out, &Scenario{Name: "corpus/retry0-abandoned-leftover", Brokers: 1, Partitions: 1, Topics: []string{"t0"}, RetryMax: 0, FlushMsgs: 2, V2: true,
 		Msgs:   []MsgSpec{two(1), two(2), {ID: 3, Topic: "t0", Choice: 0, Wave: 1}, {ID: 4, Topic: "t0", Choice: 0, Wave: 2}},
-		Script: []Fault{{Kind: Fatal, Err: 10, Only: -1}}, Holds: []HoldSpec{{Kind: "bp.response", Nth: 1}}})
+		Script: []Fault{{Kind: Fatal, Err: 10, Only: -1}},
+		// request 1 stays in the bridge until message 3 is buffered; message 4 is submitted right after the response was handled
+		Holds: []HoldSpec{{Kind: "bridge.send", Nth: 1, Until: "bp.add", UntilNth: 3}, {Kind: "return.error", Nth: 2}}})
 	// fresh input inside the retry window (steered)
 	out = append(out, &Scenario{Name: "corpus/fresh-input-in-retry-window", Brokers: 1, Partitions: 1, Topics: []string{"t0"}, RetryMax: 2, V2: true,
 		Msgs:   []MsgSpec{two(1), two(2), {ID: 3, Topic: "t0", Choice: 0, Wave: 1}, {ID: 4, Topic: "t0", Choice: 0, Wave: 1}},
